@@ -533,6 +533,10 @@ func seqTags(ops []string, impl string) []string {
 
 func main() {
 	logger.SetLevel(zap.FatalLevel)
+	if len(os.Args) > 2 && os.Args[1] == "child-budget" {
+		budgetChild(os.Args[2:])
+		return
+	}
 	if len(os.Args) > 4 && os.Args[1] == "child-stress" {
 		stressChild(os.Args[2:])
 		return
@@ -634,6 +638,45 @@ func main() {
 		}
 	}
 
+	chL := vh.NewChannel("cache.loader", "real disk.DocsReader (loader of the doc-block cache) over a docs file with CodecNo and zstd blocks of equal pool size classes, through a real Cache[[]byte] + Cleaner, vs SV.Cache.runSeq with the written block as the loader's value: hit / load, value identity, accounted size after every step; non-trivial = a block is read again after other blocks were loaded")
+	orcL := vh.NewOracle("cache.loader.property", "every read through the cache returns exactly the bytes written for that block; non-trivial = the run re-reads a cached block")
+	addLoader := func(seed int64, limit uint64, nb int, acts []string, tags ...string) {
+		current.Store(fmt.Sprintf("loader %d %d %d %s", seed, limit, nb, strings.Join(acts, ";")))
+		progress.Add(1)
+		req, impl, viol, err := runLoader(seed, limit, nb, acts)
+		if err != nil {
+			rep.Note("loader harness error: %v", err)
+			chL.Error = err.Error()
+			return
+		}
+		nt := strings.Contains(impl, ";v")
+		chL.Add(req, impl, nt, tags...)
+		orcL.Case(req, nt, tags...)
+		if viol != nil {
+			rep.Violate(*viol)
+		}
+	}
+	chB := vh.NewChannel("cache.budget", "fracmanager.FillConfigWithDefault + NewCacheMaintainer on a grid of (CacheSize, FracSize, SortCacheSize set/unset) vs SV.Budget (naturals): effective sort-cache size equal, every layer limit within one unit of the exact floor (or garbage above the cache size exactly when the model's remainder is negative); non-trivial = CacheSize > 0")
+	orcB := vh.NewOracle("cache.budget.property", "on the real cleaners: every limit <= CacheSize and positive (CacheSize >= 1 MiB), limits sum to at most CacheSize, and after overfilling the docs layer three quiet maintenance ticks leave at most CacheSize accounted; non-trivial = CacheSize > 0")
+	addBudgets := func(cases []budgetCase, tags ...string) {
+		current.Store("budget grid")
+		progress.Add(1)
+		for i, r := range runBudgetCases(cases) {
+			if r.req == "" {
+				continue
+			}
+			chB.Add(r.req, r.impl, cases[i].C > 0, tags...)
+			orcB.Case(r.req, cases[i].C > 0, tags...)
+			if r.impl == "ok rejected" {
+				chB.Tag("rejected")
+			}
+			if r.viol != nil {
+				rep.Violate(*r.viol)
+			}
+		}
+	}
+	addBudget := func(bc budgetCase, tags ...string) { addBudgets([]budgetCase{bc}, tags...) }
+
 	if o.Replay != "" {
 		lines, err := vh.ReadReplay(o.Replay)
 		if err != nil {
@@ -645,6 +688,18 @@ func main() {
 			if len(f) == 4 && f[0] == "seq" {
 				lim, _ := strconv.ParseUint(f[1], 10, 64)
 				addSeq(lim, strings.Split(f[3], ";"), "replay")
+			}
+			if len(f) == 5 && f[0] == "loader" {
+				sd, _ := strconv.ParseInt(f[1], 10, 64)
+				lim, _ := strconv.ParseUint(f[2], 10, 64)
+				nb, _ := strconv.Atoi(f[3])
+				addLoader(sd, lim, nb, strings.Split(f[4], ";"), "replay")
+			}
+			if len(f) == 4 && f[0] == "budget" {
+				c, _ := strconv.ParseUint(f[1], 10, 64)
+				fr, _ := strconv.ParseUint(f[2], 10, 64)
+				sc, _ := strconv.ParseUint(f[3], 10, 64)
+				addBudget(budgetCase{c, fr, sc}, "replay")
 			}
 			if len(f) == 3 && f[0] == "maint" {
 				tot, _ := strconv.ParseUint(f[1], 10, 64)
@@ -849,6 +904,22 @@ func main() {
 			addMaint(tot, ops, "random")
 		}
 	}
+	if o.Replay == "" {
+		// 8. the loader of the doc-block cache: load A, load other blocks of the same size class, read A again
+		addLoader(o.Seed, 100000, 6, strings.Split("R0;R1;R0;R3;R0;R1;R4;R3;R2;R5;R2;R0", ";"), "directed")
+		addLoader(o.Seed+1, 2000, 8, strings.Split("R0;R1;R3;R4;R0;r;R6;R7;c;R0;R1;R3;R4;z;R0", ";"), "directed")
+		for i := 0; i < o.Pick(150, 3000); i++ {
+			nb := rng.Range(3, 12)
+			addLoader(o.Seed*1000+int64(i), []uint64{0, 1500, 4000, 100000}[rng.Intn(4)], nb, genLoader(rng, nb, rng.Range(5, 40)), "random")
+		}
+		// 9. the configured cache size and its split among the cleaners
+		addBudgets(budgetGrid(rng, o.Pick(200, 5000)), "grid")
+	}
+	progress.Add(1)
+	rep.AddChannel(chL, o.Driver)
+	rep.AddOracle(orcL)
+	rep.AddChannel(chB, o.Driver)
+	rep.AddOracle(orcB)
 	progress.Add(1)
 	rep.AddChannel(chM, o.Driver)
 	rep.AddOracle(orcM)
